@@ -108,6 +108,10 @@ type Scanner struct {
 	// allowAnnotation indicates is annotation is allowed or not.
 	allowAnnotation bool
 
+	// slashPending the first slash of an annotation was read, the second
+	// character of its opening is still to come.
+	slashPending bool
+
 	hasTrailingCharacters bool
 }
 
@@ -235,6 +239,13 @@ func (s *Scanner) Next() (lexeme.LexEvent, bool) {
 		if len(s.finds) != 0 {
 			return s.processingFoundLexeme(s.shiftFound()), true
 		}
+	}
+
+	if s.slashPending {
+		// The text ends right after the first slash of an annotation.
+		err := kit.NewJSchemaError(s.file, errs.ErrUnexpectedEOF.F())
+		err.SetIndex(s.dataSize - 1)
+		panic(err)
 	}
 
 	if s.stack.Len() != 0 {
